@@ -1741,6 +1741,10 @@ def partition_distance(cx, cy):
     Hy = -np.sum(Py * np.log(Py))
     Hxy = -np.sum(Pxy * np.log(Pxy))
 
+    # both partitions trivial (one block each) or a single node: the partitions coincide,
+    # the quotients below would be 0/0
+    if n == 1 or (np.max(cx) == 1 and np.max(cy) == 1):
+        return 0.0, 1.0
     Vin = (2 * Hxy - Hx - Hy) / np.log(n)
     Min = 2 * (Hx + Hy - Hxy) / (Hx + Hy)
     return Vin, Min
